@@ -154,7 +154,7 @@ pub fn install_quiet_panic_hook() {
 }
 
 pub fn last_panic() -> String {
-    LAST_PANIC.with(|p| p.borrow().clone())
+    LAST_PANIC.try_with(|p| p.borrow().clone()).unwrap_or_default()
 }
 
 /// Run `f`, converting a panic into `Err(message)`.
